@@ -55,6 +55,7 @@ type fctx struct {
 	ghosts   map[string]Term
 	oldEnv   *Env
 	closures map[types.Object]*ast.FuncLit
+	aliases  map[types.Object]ast.Expr // x := &E : x stands for the location E (E's index variables must stay unchanged)
 	splits   []Term // active case-analysis conditions (obligations are discharged once per case)
 	measure0 []Term // entry value of the function-level decreases measure
 	hidden   []types.Object // hidden index variables of enclosing range loops (innermost last)
@@ -759,6 +760,18 @@ func (x *Exec) execAssign(s *ast.AssignStmt, env *Env) *Env {
 				if id.Name == "_" {
 					continue
 				}
+				if obj := info.Defs[id]; obj != nil && len(s.Lhs) == len(s.Rhs) {
+					// p := &s[i]... : p is an alias of that location (writes through p update the element)
+					if u, isAddr := ast.Unparen(s.Rhs[i]).(*ast.UnaryExpr); isAddr && u.Op == token.AND {
+						if _, isIx := ast.Unparen(u.X).(*ast.IndexExpr); isIx && isAddressable(u.X) {
+							if x.cx.aliases == nil {
+								x.cx.aliases = map[types.Object]ast.Expr{}
+							}
+							x.cx.aliases[obj] = u.X
+							x.W.Note("pointer " + id.Name + " := &" + types.ExprString(u.X) + " treated as an alias of that element (its index variables are assumed unchanged while the alias is used)")
+						}
+					}
+				}
 				if obj := info.Defs[id]; obj != nil {
 					v := vals[i]
 					v.GoT = obj.Type()
@@ -786,6 +799,12 @@ func (x *Exec) assign(l ast.Expr, v Term, env *Env) {
 		}
 		if obj == nil {
 			unsupported("assign to unknown ident %s", l.Name)
+		}
+		if x.cx.aliases != nil {
+			if tgt, isAlias := x.cx.aliases[obj]; isAlias {
+				x.assign(tgt, v, env)
+				return
+			}
 		}
 		if _, isVar := obj.(*types.Var); isVar && obj.Parent() == obj.Pkg().Scope() {
 			x.globals[obj] = v
@@ -1108,6 +1127,84 @@ func assignedVars(info *types.Info, n ast.Node, closures map[types.Object]*ast.F
 	return out
 }
 
+// writtenThrough: is there an assignment whose target is a field/element/deref reached THROUGH variable v
+// (as opposed to rebinding v itself), or a pointer-receiver method call on it?
+func writtenThrough(info *types.Info, body ast.Node, v types.Object) bool {
+	found := false
+	var rootIs func(e ast.Expr) bool
+	rootIs = func(e ast.Expr) bool {
+		switch e := e.(type) {
+		case *ast.Ident:
+			return info.Uses[e] == v
+		case *ast.ParenExpr:
+			return rootIs(e.X)
+		case *ast.StarExpr:
+			return rootIs(e.X)
+		case *ast.SelectorExpr:
+			if sel, ok := info.Selections[e]; ok && sel.Kind() == types.FieldVal {
+				return rootIs(e.X)
+			}
+		case *ast.IndexExpr:
+			return rootIs(e.X)
+		}
+		return false
+	}
+	ast.Inspect(body, func(n ast.Node) bool {
+		switch s := n.(type) {
+		case *ast.AssignStmt:
+			for _, l := range s.Lhs {
+				if _, isId := l.(*ast.Ident); !isId && rootIs(l) {
+					found = true
+				}
+			}
+		case *ast.IncDecStmt:
+			if _, isId := s.X.(*ast.Ident); !isId && rootIs(s.X) {
+				found = true
+			}
+		case *ast.CallExpr:
+			if se, ok := s.Fun.(*ast.SelectorExpr); ok {
+				if sel, ok := info.Selections[se]; ok && sel.Kind() == types.MethodVal && rootIs(se.X) {
+					if sig, ok := sel.Obj().Type().(*types.Signature); ok && sig.Recv() != nil {
+						if _, isPtr := sig.Recv().Type().(*types.Pointer); isPtr {
+							if fn, isFn := sel.Obj().(*types.Func); !isFn || readonlyCallee == nil || !readonlyCallee(fn) {
+								found = true
+							}
+						}
+					}
+				}
+			}
+		}
+		return !found
+	})
+	return found
+}
+
+// aliasRoots: variables modified through aliases (p := &s[i]; p.f = v modifies s).
+func (x *Exec) aliasRoots(info *types.Info, body ast.Node, mod map[types.Object]bool) {
+	ast.Inspect(body, func(n ast.Node) bool {
+		as, ok := n.(*ast.AssignStmt)
+		if !ok || as.Tok != token.DEFINE || len(as.Lhs) != len(as.Rhs) {
+			return true
+		}
+		for i, r := range as.Rhs {
+			u, isAddr := ast.Unparen(r).(*ast.UnaryExpr)
+			if !isAddr || u.Op != token.AND {
+				continue
+			}
+			id, isId := as.Lhs[i].(*ast.Ident)
+			if !isId {
+				continue
+			}
+			if obj := info.Defs[id]; obj != nil && writtenThrough(info, body, obj) {
+				for o := range assignedVars(info, &ast.AssignStmt{Lhs: []ast.Expr{u.X}, Tok: token.ASSIGN, Rhs: []ast.Expr{u.X}}, nil) {
+					mod[o] = true
+				}
+			}
+		}
+		return true
+	})
+}
+
 func (x *Exec) loopContract(n ast.Node) (*LoopContract, int) {
 	ord, ok := x.cx.loopOrd[n]
 	if !ok {
@@ -1331,6 +1428,7 @@ func (x *Exec) execFor(s *ast.ForStmt, env *Env, label string) *Env {
 	}
 	info := x.cx.info
 	mod := assignedVars(info, s.Body, x.cx.closures)
+	x.aliasRoots(info, s.Body, mod)
 	if s.Post != nil {
 		for o := range assignedVars(info, s.Post, x.cx.closures) {
 			mod[o] = true
@@ -1379,6 +1477,7 @@ func (x *Exec) execRange(s *ast.RangeStmt, env *Env, label string) *Env {
 	xt := info.TypeOf(s.X)
 	coll := x.eval(s.X, env)
 	mod := assignedVars(info, s.Body, x.cx.closures)
+	x.aliasRoots(info, s.Body, mod)
 	var keyObj, valObj types.Object
 	getObj := func(e ast.Expr) types.Object {
 		if e == nil {
